@@ -773,6 +773,7 @@ class Interp:
         if not st.branch(z3.And(k < n, k >= -n)):
             self.raise_(IndexError, 'index out of range')
         v = seq[z3.If(k < 0, k + n, k)]
+        st.assume(v != V.ABSENT)          # containers never hold the 'missing' marker
         if note:
             st.note_ref(v)
         return v
@@ -1225,6 +1226,7 @@ class Interp:
                 if st.branch(n == 0):
                     self.raise_(IndexError, 'pop from empty list')
                 st.set_items(ref, z3.Extract(items, 0, n - 1))
+                st.assume(items[n - 1] != V.ABSENT)
                 return items[n - 1]
             idx = self.to_val(args[0])
             if not st.branch(is_intlike(idx)):
@@ -1234,6 +1236,7 @@ class Interp:
                 self.raise_(IndexError, 'pop index out of range')
             k = z3.If(k < 0, k + n, k)
             st.set_items(ref, z3.Concat(z3.Extract(items, 0, k), z3.Extract(items, k + 1, n - k - 1)))
+            st.assume(items[k] != V.ABSENT)
             return items[k]
         if name == 'insert':
             idx = self.to_val(args[0])
@@ -1728,6 +1731,15 @@ class Interp:
     def spec_strip(self, node):
         v = self.to_val(self.ev(node.args[0]))
         return Val.s(STR_STRIP(Val.sv(v)))
+
+    def spec_ghost_val(self, node):
+        """a ghost variable holding an arbitrary value (e.g. the process-wide trace function)"""
+        name = node.args[0].value
+        g = self.heap.ghost
+        if name not in g:
+            g[name] = z3.Const('G0v_' + name, Val)
+            self.st.heap.ghost.setdefault(name, g[name])
+        return g[name]
 
     def spec_lower(self, node):
         v = self.to_val(self.ev(node.args[0]))
